@@ -21,10 +21,17 @@ Here they are the operations of the C01 kernel (`Model/Kernel.lean`, read only):
   containers (`graph.inputs`, `graph.outputs`, `graph.initializers`, `node.attributes`) are objects of
   their own; `kOwner` is their `_graph` / `_owner`.
 
-Not instantiated: `Op.attrEdit` (attributes are not kernel state; tree empty), the receiver of
-`Graph.sort` (the kernel op `sortOk orders` does not say on which graph `sort` was called: the root
-of its tree carries the placeholder `sortSelf`), return values (the kernel has outcomes only: every
-completed call returns None here), the spelling of a call through `Function` / `Node.append`.
+Round 4: the extended C01 alphabet is instantiated too (`Node.name=` / `op_type=`, `const_value = None`,
+`Graph.sort()` decided by the kernel's own sort model and with its receiver, attribute edits, `Node(..., attributes=...)`,
+`Tape.initializer`, `Builder`, the atomic `convenience.replace_all_uses_with`), instrumented calls carry their return
+value (`ret`; the only instrumented function that returns something is `_GraphIO.pop`), and a public call may be
+*spelled* (`Spell`): through an `ir.Function` (created on first use: `Function.__init__`), through `Node.append` /
+`Node.prepend`, with `Attr` objects built for it (`Attr.__init__`), or with `|=` (no `__setitem__`).  `GCall` is what the
+journal model needs to know about one public call; `KCall` = kernel op + spelling.  Objects that are not kernel state
+(`Function`, `Attr`) are numbered by the harness.
+
+Not instantiated: a non-`Attr` attribute argument (type-incorrect, the kernel op cannot carry it), `Value(producer, index=...)`
+and `Node(outputs=[initializer])` (C01 finding D12b).
 -/
 namespace IrVerif.Journal
 
@@ -33,28 +40,35 @@ abbrev KW := IrVerif.Kernel.World
 inductive KObj where
   | val (i : Nat) | node (i : Nat) | graph (i : Nat) | inputs (g : Nat) | outputs (g : Nat)
   | inits (g : Nat) | attrs (n : Nat) | tensor (i : Nat)
+  /-- an `Attr` object (numbered by the harness in creation order) -/
+  | attr (i : Nat)
+  /-- the `ir.Function` wrapping graph `g` -/
+  | func (g : Nat)
   deriving DecidableEq, Repr
 
 def KObj.enc : KObj → Obj
-  | .val i => 8 * i
-  | .node i => 8 * i + 1
-  | .graph i => 8 * i + 2
-  | .inputs g => 8 * g + 3
-  | .outputs g => 8 * g + 4
-  | .inits g => 8 * g + 5
-  | .attrs n => 8 * n + 6
-  | .tensor i => 8 * i + 7
+  | .val i => 16 * i
+  | .node i => 16 * i + 1
+  | .graph i => 16 * i + 2
+  | .inputs g => 16 * g + 3
+  | .outputs g => 16 * g + 4
+  | .inits g => 16 * g + 5
+  | .attrs n => 16 * n + 6
+  | .tensor i => 16 * i + 7
+  | .attr i => 16 * i + 8
+  | .func g => 16 * g + 9
 
 /-- `_graph` of an input / output / initializer container, `_owner` of an attribute container -/
 def kOwner (o : Obj) : Obj :=
-  if o % 8 = 3 ∨ o % 8 = 4 ∨ o % 8 = 5 then 8 * (o / 8) + 2
-  else if o % 8 = 6 then 8 * (o / 8) + 1 else o
+  if o % 16 = 3 ∨ o % 16 = 4 ∨ o % 16 = 5 then 16 * (o / 16) + 2
+  else if o % 16 = 6 then 16 * (o / 16) + 1 else o
 
-/-- an instrumented call that makes no instrumented call -/
+/-- an instrumented call that makes no instrumented call; `ret` = what the original returns when it completes -/
 structure L0 where
   slot : Nat
   self : Obj
   ok : Bool := true
+  ret : Val := .none
   deriving DecidableEq, Repr
 
 structure L1 where
@@ -62,6 +76,7 @@ structure L1 where
   self : Obj
   kids : List L0 := []
   ok : Bool := true
+  ret : Val := .none
   deriving DecidableEq, Repr
 
 structure L2 where
@@ -69,10 +84,11 @@ structure L2 where
   self : Obj
   kids : List L1 := []
   ok : Bool := true
+  ret : Val := .none
   deriving DecidableEq, Repr
 
-def lift0 (c : L0) : L1 := { slot := c.slot, self := c.self, kids := [], ok := c.ok }
-def lift1 (c : L1) : L2 := { slot := c.slot, self := c.self, kids := c.kids.map lift0, ok := c.ok }
+def lift0 (c : L0) : L1 := { slot := c.slot, self := c.self, kids := [], ok := c.ok, ret := c.ret }
+def lift1 (c : L1) : L2 := { slot := c.slot, self := c.self, kids := c.kids.map lift0, ok := c.ok, ret := c.ret }
 
 def okOf : Kernel.Outcome → Bool
   | .ok => true
@@ -82,6 +98,15 @@ def okOf : Kernel.Outcome → Bool
 def kernelExn : Nat := 3
 
 def outOf (ok : Bool) : Outcome := if ok then .ret .none else .raise kernelExn
+
+/-- a completed call returns `v`, a rejected one raises -/
+def outOfV (ok : Bool) (v : Val) : Outcome := if ok then .ret v else .raise kernelExn
+
+/-- constructors and property setters return None whatever the register says (`ProcNone` by construction) -/
+def retFor (k : Nat) (v : Val) : Val := if kindOf k = .init ∨ kindOf k = .setter then .none else v
+
+/-- outcome of the original function of slot `k` -/
+def outT (k : Nat) (ok : Bool) (v : Val) : Outcome := outOfV ok (retFor k v)
 
 /-! ## call trees -/
 
@@ -180,6 +205,17 @@ def ioSlot : Kernel.IOMut → Option Nat
   | .setSlice _ _ _ _ => some 39
   | _ => none
 
+/-- what the `_GraphIO` method returns: `pop` the removed value, everything else None -/
+def ioRet (w : KW) (g : Nat) (k : Kernel.IOKind) : Kernel.IOMut → Val
+  | .pop i =>
+    let l := Kernel.ioList k (w.gr g)
+    match Kernel.normIndex l.length i with
+    | some p => match l[p]? with
+      | some v => .ref (KObj.val v).enc
+      | none => .none
+    | none => .none
+  | _ => .none
+
 def initTrees (w : KW) (g : Nat) (m : Kernel.InitMut) : List L2 :=
   let c := (KObj.inits g).enc
   let ok := okOf (Kernel.initMut w g m).2
@@ -207,6 +243,32 @@ def initTrees (w : KW) (g : Nat) (m : Kernel.InitMut) : List L2 :=
     if ownBad then [{ slot := 20, self := (KObj.graph g).enc, ok := false }]
     else [{ slot := 20, self := (KObj.graph g).enc, ok := ok, kids := [{ slot := 40, self := c, ok := ok }] }]
 
+/-- `Node.__init__` (_core.py 2166-2260): the attribute dict is built first (`Attributes(attributes, owner=self)`:
+    one `__setitem__` per distinct key, also when the node is then rejected), then the output check, then
+    `_create_outputs` builds the missing outputs (`Value(...)`), then `graph.append(self)` when `graph=` is given -/
+def newNodeTree (w : KW) (ok : Bool) (opType : String) (name : Option String) (inputs : List (Option Nat))
+    (numOutputs : Option Int) (outputs : Option (List Nat)) (graph : Option Nat)
+    (attrs : List (String × List Nat)) : L2 :=
+  let n := w.nodes.length
+  let setAttrs : List L1 := (Kernel.initAttrs attrs).map (fun _ => ({ slot := 42, self := (KObj.attrs n).enc } : L1))
+  if !ok then { slot := 1, self := (KObj.node n).enc, ok := false, kids := setAttrs }
+  else
+    let created : List L1 := match outputs with
+      | some _ => []
+      | none => (List.range (numOutputs.getD 1).toNat).map
+          (fun i => ({ slot := 12, self := (KObj.val (w.vals.length + i)).enc } : L1))
+    let w1 := Kernel.newNodeMut w opType name inputs numOutputs outputs
+    { slot := 1, self := (KObj.node n).enc,
+      kids := setAttrs ++ created ++ match graph with
+        | none => []
+        | some g => [{ slot := 21, self := (KObj.graph g).enc, kids := attachKids w1 n }] }
+
+/-- The matches of `opTrees` / `convTrees` are exhaustive on purpose: when the C01 kernel alphabet grows, this file
+    stops compiling at the missing case.  Whoever adds the constructor and cannot write its call tree yet must map it
+    to `notInstantiated` (never to `[]`): the harness reports a tree with slot 999 as a broken correspondence that
+    names the operation (`harness/c20.py`, `K_INSTANTIATED`). -/
+def notInstantiated : List L2 := [{ slot := 999, self := 0 }]
+
 /-- the instrumented calls of a single kernel call, in program order -/
 def opTrees (w : KW) (op : Kernel.Op) : List L2 :=
   let ok := okOf (Kernel.step w op).2
@@ -215,21 +277,8 @@ def opTrees (w : KW) (op : Kernel.Op) : List L2 :=
   -- the harness creates the tensor (`TensorBase.__init__`), then `value.const_value = tensor`
   | .setConst v _ =>
     [{ slot := 0, self := (KObj.tensor w.tensors.length).enc }, { slot := 16, self := (KObj.val v).enc }]
-  -- `Node.__init__` (_core.py 2166-2250): `_create_outputs` builds the missing outputs (`Value(...)`),
-  -- `graph.append(self)` when `graph=` is given; rejected before any of that
   | .newNode opType name inputs numOutputs outputs graph =>
-    let n := w.nodes.length
-    if !ok then [{ slot := 1, self := (KObj.node n).enc, ok := false }]
-    else
-      let created : List L1 := match outputs with
-        | some _ => []
-        | none => (List.range (numOutputs.getD 1).toNat).map
-            (fun i => ({ slot := 12, self := (KObj.val (w.vals.length + i)).enc } : L1))
-      let w1 := Kernel.newNodeMut w opType name inputs numOutputs outputs
-      [{ slot := 1, self := (KObj.node n).enc,
-         kids := created ++ match graph with
-           | none => []
-           | some g => [{ slot := 21, self := (KObj.graph g).enc, kids := attachKids w1 n }] }]
+    [newNodeTree w ok opType name inputs numOutputs outputs graph []]
   -- `Graph.__init__` (_core.py 3664-3713)
   | .newGraph inputs outputs nodes inits =>
     let g := w.graphs.length
@@ -258,7 +307,7 @@ def opTrees (w : KW) (op : Kernel.Op) : List L2 :=
   | .rauw v r rgo => [rauwTree w v r rgo]
   | .io g k m =>
     match ioSlot m with
-    | some s => [{ slot := s, self := ioSelf g k, ok := ok }]
+    | some s => [{ slot := s, self := ioSelf g k, ok := ok, ret := ioRet w g k m }]
     | none => []
   | .init g m => initTrees w g m
   | .setName v s => [setNameTree w v s]
@@ -283,8 +332,24 @@ def opTrees (w : KW) (op : Kernel.Op) : List L2 :=
   | .sortOk orders => [{ slot := 26, self := sortSelf, ok := ok, kids := if ok then sortKids w orders else [] }]
   | .sortCycle => [{ slot := 26, self := sortSelf, ok := false }]
   | .attrEdit => []
-  -- operations added to the kernel alphabet after this instantiation (round 3 of C01): not instantiated (tree empty)
-  | _ => []
+  | .newNodeAttrs opType name inputs numOutputs outputs graph attrs =>
+    [newNodeTree w ok opType name inputs numOutputs outputs graph attrs]
+  -- `Graph.sort()` decided by the kernel's sort model: the receiver is the graph, one `extend` per involved graph
+  | .sort g =>
+    match Sort.sortModel (Kernel.treeOf w g) with
+    | none => [{ slot := 26, self := (KObj.graph g).enc, ok := false }]
+    -- (`sorted_nodes_by_graph` only has the graphs in which a node was found: a graph without nodes is not re-extended)
+    | some orders =>
+      [{ slot := 26, self := (KObj.graph g).enc, ok := ok,
+         kids := if ok then sortKids w (orders.filter (fun p => !p.2.isEmpty)) else [] }]
+  | .setNodeName n _ => [{ slot := 2, self := (KObj.node n).enc }]
+  | .setOpType n _ => [{ slot := 5, self := (KObj.node n).enc }]
+  | .clearConst v => [{ slot := 16, self := (KObj.val v).enc }]
+  -- `node.attributes[key] = attr` and its spellings `add` / `update` / `setdefault` (absent key): `__setitem__`;
+  -- `del` / `pop` / `popitem` / `clear` go through `__delitem__`, which is not instrumented
+  | .attrSet n _ _ => [{ slot := 42, self := (KObj.attrs n).enc }]
+  | .attrDel _ _ _ => []
+  | .attrClear _ => []
 
 /-- `convenience.replace_all_uses_with`: one `Value.replace_all_uses_with` per pair, up to and
     including the first rejected one -/
@@ -345,39 +410,143 @@ def replaceTrees (w : KW) (g ip : Nat) (oldNodes newNodes oldVals newVals : List
       opTrees r2.1 (.insertAfter g ip newNodes) ++
       (if !okOf r3.2 then [] else opTrees r3.1 (.remove g oldNodes true))))
 
+/-- `convenience.replace_all_uses_with` with the up-front check of every pair (repo commit c936126): nothing is called
+    when a pair would be rejected -/
+def rauwManyExactTrees (w : KW) (vs rs : List Nat) (rgo : Bool) : List L2 :=
+  if vs.length ≠ rs.length then []
+  else if !okOf (Kernel.rauwSeq w rgo (vs.zip rs)).2 then []
+  else rauwSeqTrees w rgo (vs.zip rs)
+
+def replaceTreesExact (w : KW) (g ip : Nat) (oldNodes newNodes oldVals newVals : List Nat) : List L2 :=
+  let r1 := Kernel.copyInfo w (oldVals.zip newVals)
+  copyInfoTrees w (oldVals.zip newVals) ++
+  (if !okOf r1.2 then [] else
+    let r2 := Kernel.rauwManyExact r1.1 oldVals newVals true
+    rauwManyExactTrees r1.1 oldVals newVals true ++
+    (if !okOf r2.2 then [] else
+      let r3 := Kernel.graphInsertAfter r2.1 g ip newNodes
+      opTrees r2.1 (.insertAfter g ip newNodes) ++
+      (if !okOf r3.2 then [] else opTrees r3.1 (.remove g oldNodes true))))
+
+/-- `value.name = name` for each pair, stopping after the first rejected one (`Kernel.setNameSeq`) -/
+def setNameSeqTrees (w : KW) : List (Nat × String) → List L2
+  | [] => []
+  | (v, s) :: rest =>
+    let r := Kernel.setName w v (some s)
+    setNameTree w v (some s) :: (if okOf r.2 then setNameSeqTrees r.1 rest else [])
+
+/-- `Tape.initializer(tensor, name)` (_tape.py 194-205) after the harness built the tensor: `ir.Value(..., const_value=
+    tensor)` unless no name can be found, then `graph.register_initializer(value)` when the tape is bound to a graph.
+    `mid` = instrumented calls of the spelling between the tensor and the value (an `ir.Function` made for the tape) -/
+def tapeInitTrees (w : KW) (g : Option Nat) (name tname : Option String) (locked : Bool) (mid : List L2) : List L2 :=
+  let t := w.tensors.length
+  let v := w.vals.length
+  ({ slot := 0, self := (KObj.tensor t).enc } : L2) :: (mid ++
+  match (if Kernel.falsy name then tname else name) with
+  | none => []
+  | some nm =>
+    let w1 := ({ w with tensors := Kernel.lset w.tensors t tname, locked := Kernel.lset w.locked t locked }).setVal v
+      { name := some nm, const := some t }
+    ({ slot := 12, self := (KObj.val v).enc } : L2) ::
+      (match g with
+       | none => []
+       | some gi => initTrees w1 gi (.register v)))
+
+/-- `Builder(graph).<OpType>(...)` (_tape.py 213-242): the node, then one `Value.name = ...` per requested name -/
+def builderTrees (w : KW) (g : Option Nat) (opType : String) (inputs : List (Option Nat)) (k : Nat)
+    (names : Option (List String)) : List L2 :=
+  let r := Kernel.newNode w opType none inputs (some (k : Int)) none g
+  opTrees w (.newNode opType none inputs (some (k : Int)) none g) ++
+  (if !okOf r.2 then [] else
+    match names with
+    | none => []
+    | some ns => setNameSeqTrees r.1 ((r.1.node w.nodes.length).outputs.zip ns))
+
 def convTrees (w : KW) : Kernel.ConvOp → List L2
   | .rauwMany vs rs rgo => rauwManyTrees w vs rs rgo
   | .renameValues vs names => renameTrees w vs names
   | .replaceNodesAndValues g ip oldNodes newNodes oldVals newVals =>
     replaceTrees w g ip oldNodes newNodes oldVals newVals
-  -- composite calls added to the kernel alphabet after this instantiation (round 3 of C01): not instantiated
-  | _ => []
+  | .rauwManyExact vs rs rgo => rauwManyExactTrees w vs rs rgo
+  | .replaceNodesAndValuesExact g ip oldNodes newNodes oldVals newVals =>
+    replaceTreesExact w g ip oldNodes newNodes oldVals newVals
+  | .tapeInitializer g name tname locked => tapeInitTrees w g name tname locked []
+  | .builderNode g opType inputs k names => builderTrees w g opType inputs k names
 
 /-- the instrumented calls of one public call of the C01 alphabet on state `w` -/
 def callTree (w : KW) : Kernel.AnyOp → List L2
   | .one op => opTrees w op
   | .conv op => convTrees w op
 
+/-! ## spelled calls -/
+
+/-- How a public call of the kernel alphabet is written on the real objects, as far as it decides which
+    instrumented functions run.  (Supplied by the harness; the kernel op does not carry it.) -/
+structure Spell where
+  /-- the call goes through the `ir.Function` wrapping the graph and that object is created by this call
+      (first use): `Function.__init__` runs first.  Later uses delegate to the graph's methods and containers
+      without any further instrumented call. -/
+  newFunction : Option Nat := none
+  /-- `Attr` objects built for this call (`Attr.__init__` each), in order -/
+  newAttrs : List Nat := []
+  /-- `anchor.append(nodes)` / `anchor.prepend(nodes)` (`Node.append` / `Node.prepend`, _core.py 2495-2520)
+      instead of `graph.insert_after` / `insert_before` -/
+  viaNode : Bool := false
+  /-- the attribute dict is written with `|=` (`UserDict.__ior__` updates `self.data`: no `__setitem__`) -/
+  noSetItem : Bool := false
+  deriving Repr
+
+structure KCall where
+  op : Kernel.AnyOp
+  sp : Spell := {}
+  deriving Repr
+
+/-- the constructor calls of the spelling -/
+def Spell.pre (sp : Spell) : List L2 :=
+  (match sp.newFunction with
+   | some g => [({ slot := 28, self := (KObj.func g).enc } : L2)]
+   | none => []) ++
+  sp.newAttrs.map (fun a => ({ slot := 32, self := (KObj.attr a).enc } : L2))
+
+/-- `Node.append` (slot 9) / `Node.prepend` (slot 8) around the graph's method -/
+def nodeSpelled (slot : Nat) (a : Nat) (t : L2) : L2 :=
+  { slot := slot, self := (KObj.node a).enc, ok := t.ok,
+    kids := [{ slot := t.slot, self := t.self, ok := t.ok, kids := t.kids.map (fun c => ({ slot := c.slot, self := c.self, ok := c.ok, ret := c.ret } : L0)) }] }
+
+/-- the instrumented calls of one public call as it is spelled -/
+def callTreeX (w : KW) (c : KCall) : List L2 :=
+  match c.op with
+  | .conv (.tapeInitializer g name tname locked) => tapeInitTrees w g name tname locked c.sp.pre
+  | .one (.insertAfter g a ns) =>
+    c.sp.pre ++ (if c.sp.viaNode then (opTrees w (.insertAfter g a ns)).map (nodeSpelled 9 a) else opTrees w (.insertAfter g a ns))
+  | .one (.insertBefore g a ns) =>
+    c.sp.pre ++ (if c.sp.viaNode then (opTrees w (.insertBefore g a ns)).map (nodeSpelled 8 a) else opTrees w (.insertBefore g a ns))
+  | .one (.attrSet n key gs) => c.sp.pre ++ (if c.sp.noSetItem then [] else opTrees w (.attrSet n key gs))
+  | op => c.sp.pre ++ callTree w op
+
 /-! ## the configuration -/
 
-/-- IR state of the instantiated journal model: the kernel world and the "argument register" through
-    which a caller tells the callee what it is going to do (the instrumented calls it makes and
-    whether it completes) -/
+/-- IR state of the instantiated journal model: the kernel world, the "argument register" through which a caller
+    tells the callee what it is going to do (the instrumented calls it makes, whether it completes, what it
+    returns), and what the last top-level instrumented call handed back to the user code -/
 structure KState where
   w : KW
-  reg : List L1 × Bool := ([], true)
+  reg : List L1 × Bool × Val := ([], true, .none)
+  last : Outcome := .ret .none
 
 /-- call `c` (an instrumented operation that makes the calls `c.kids`), then continue; the callee's
     outcome is not inspected (a rejected callee is always the last call of a rejected caller) -/
 def callL1 (c : L1) (rest : Prog KState) : Prog KState :=
-  .get fun st => .put { st with reg := (c.kids.map lift0, c.ok) } (.call c.slot c.self .none fun _ => rest)
+  .get fun st => .put { st with reg := (c.kids.map lift0, c.ok, c.ret) } (.call c.slot c.self .none fun _ => rest)
 
 def callL1s : List L1 → Prog KState → Prog KState
   | [], rest => rest
   | c :: cs, rest => callL1 c (callL1s cs rest)
 
+/-- a top-level call: what it hands back (through whatever wrappers are installed) is kept in `last` -/
 def callL2 (c : L2) (rest : Prog KState) : Prog KState :=
-  .get fun st => .put { st with reg := (c.kids, c.ok) } (.call c.slot c.self .none fun _ => rest)
+  .get fun st => .put { st with reg := (c.kids, c.ok, c.ret) }
+    (.call c.slot c.self .none fun o => .get fun st' => .put { st' with last := o } rest)
 
 def callL2s : List L2 → Prog KState → Prog KState
   | [], rest => rest
@@ -386,18 +555,111 @@ def callL2s : List L2 → Prog KState → Prog KState
 /-- the body of every original function: make the calls announced in the register, finish with the
     announced outcome -/
 def kImpl : Nat → Obj → Val → Prog KState :=
-  fun _ _ _ => .get fun st => callL1s st.reg.1 (.done (outOf st.reg.2))
+  fun k _ _ => .get fun st => callL1s st.reg.1 (.done (outT k st.reg.2.1 st.reg.2.2))
 
 def kCfg : Cfg KState := { impl := kImpl, owner := kOwner, details := fun _ _ _ s => some s }
 
-/-- user code of one public call of the C01 alphabet -/
-def opProg (op : Kernel.AnyOp) : Prog KState :=
-  .get fun st =>
-    callL2s (callTree st.w op)
-      (.get fun st' => .put { st' with w := (Kernel.stepAny st.w op).1 }
-        (.done (outOf (okOf (Kernel.stepAny st.w op).2))))
+def valOf : Outcome → Val
+  | .ret v => v
+  | .raise _ => .none
+
+/-- what the journal model needs to know about one public call -/
+structure GCall where
+  /-- the instrumented calls it makes on kernel state `w`, in program order -/
+  trees : KW → List L2
+  /-- the kernel's transition and whether the call completes -/
+  step : KW → KW × Bool
+  /-- the public call IS its instrumented root call (`graph.inputs.pop()`, `graph.append(n)`, ...): what it
+      returns is what that call handed back; otherwise it returns None -/
+  direct : Bool
+
+/-- user code of one public call: make the top-level instrumented calls, the kernel state becomes the kernel's,
+    the outcome is the kernel's with the value that came back from the root call -/
+def gProg (c : GCall) : Prog KState :=
+  .get fun st => .put { st with last := .ret .none }
+    (callL2s (c.trees st.w)
+      (.get fun st' => .put { st' with w := (c.step st.w).1 }
+        (.done (outOfV (c.step st.w).2 (if c.direct then valOf st'.last else .none)))))
 
 /-- a history: every call inside its own `try` (a rejected call does not end the history) -/
+def gBlock : List GCall → Block KState
+  | [] => .skip
+  | c :: rest => .seq (.attempt (.op (gProg c))) (gBlock rest)
+
+/-- a history with `with journal:` blocks around any parts of it -/
+inductive GBlk where
+  | ops (l : List GCall)
+  | seq (a b : GBlk)
+  | withJ (j : Nat) (body : GBlk)
+
+def GBlk.toBlock : GBlk → Block KState
+  | .ops l => gBlock l
+  | .seq a b => .seq a.toBlock b.toBlock
+  | .withJ j body => .withJ j body.toBlock
+
+def GBlk.allOps : GBlk → List GCall
+  | .ops l => l
+  | .seq a b => a.allOps ++ b.allOps
+  | .withJ _ body => body.allOps
+
+/-! ## what a history is expected to produce -/
+
+def evs0 (c : L0) : List Ev := [.start c.slot c.self, .finish c.slot c.self (outT c.slot c.ok c.ret)]
+def evs1 (c : L1) : List Ev :=
+  [.start c.slot c.self] ++ c.kids.flatMap evs0 ++ [.finish c.slot c.self (outT c.slot c.ok c.ret)]
+def evs2 (c : L2) : List Ev :=
+  [.start c.slot c.self] ++ c.kids.flatMap evs1 ++ [.finish c.slot c.self (outT c.slot c.ok c.ret)]
+
+/-- what the user code holds after the top-level calls `ts` (from `o`) -/
+def lastOf : List L2 → Outcome → Outcome
+  | [], o => o
+  | c :: cs, _ => lastOf cs (outT c.slot c.ok c.ret)
+
+/-- outcome of the public call `c` on kernel state `w` -/
+def gOut (c : GCall) (w : KW) : Outcome :=
+  outOfV (c.step w).2 (if c.direct then valOf (lastOf (c.trees w) (.ret .none)) else .none)
+
+def gEvs (w : KW) : List GCall → List Ev
+  | [] => []
+  | c :: rest => (c.trees w).flatMap evs2 ++ gEvs (c.step w).1 rest
+
+def gLog (w : KW) : List GCall → List Outcome
+  | [] => []
+  | c :: rest => gOut c w :: gLog (c.step w).1 rest
+
+def gWorld (w : KW) (ops : List GCall) : KW := ops.foldl (fun w c => (c.step w).1) w
+
+/-! ## the two instances: plain kernel calls, spelled kernel calls -/
+
+/-- a public call that is itself the instrumented function (its result comes back through the wrappers) -/
+def isDirect : Kernel.AnyOp → Bool
+  | .one (.io _ _ m) => (ioSlot m).isSome
+  | .one (.resizeInputs ..) => true
+  | .one (.resizeOutputs ..) => true
+  | .one (.rauw ..) => true
+  | .one (.append ..) => true
+  | .one (.extend ..) => true
+  | .one (.insertAfter ..) => true
+  | .one (.insertBefore ..) => true
+  | .one (.remove ..) => true
+  | .one (.sort _) => true
+  | .one (.sortOk _) => true
+  | .one (.sortCycle) => true
+  | _ => false
+
+def gOf (op : Kernel.AnyOp) : GCall :=
+  { trees := fun w => callTree w op,
+    step := fun w => ((Kernel.stepAny w op).1, okOf (Kernel.stepAny w op).2),
+    direct := isDirect op }
+
+def gOfX (c : KCall) : GCall :=
+  { trees := fun w => callTreeX w c,
+    step := fun w => ((Kernel.stepAny w c.op).1, okOf (Kernel.stepAny w c.op).2),
+    direct := isDirect c.op }
+
+/-- user code of one public call of the C01 alphabet -/
+def opProg (op : Kernel.AnyOp) : Prog KState := gProg (gOf op)
+
 def histBlock : List Kernel.AnyOp → Block KState
   | [] => .skip
   | op :: rest => .seq (.attempt (.op (opProg op))) (histBlock rest)
@@ -418,24 +680,41 @@ def KBlk.allOps : KBlk → List Kernel.AnyOp
   | .seq a b => a.allOps ++ b.allOps
   | .withJ _ body => body.allOps
 
-/-! ## what a history is expected to produce -/
-
-def evs0 (c : L0) : List Ev := [.start c.slot c.self, .finish c.slot c.self (outOf c.ok)]
-def evs1 (c : L1) : List Ev :=
-  [.start c.slot c.self] ++ c.kids.flatMap evs0 ++ [.finish c.slot c.self (outOf c.ok)]
-def evs2 (c : L2) : List Ev :=
-  [.start c.slot c.self] ++ c.kids.flatMap evs1 ++ [.finish c.slot c.self (outOf c.ok)]
+def KBlk.toG : KBlk → GBlk
+  | .ops l => .ops (l.map gOf)
+  | .seq a b => .seq a.toG b.toG
+  | .withJ j body => .withJ j body.toG
 
 /-- the original functions executed by a history from state `w` (start / finish events) -/
-def histEvs (w : KW) : List Kernel.AnyOp → List Ev
-  | [] => []
-  | op :: rest => (callTree w op).flatMap evs2 ++ histEvs (Kernel.stepAny w op).1 rest
+def histEvs (w : KW) (ops : List Kernel.AnyOp) : List Ev := gEvs w (ops.map gOf)
 
-/-- the outcomes of the calls of a history from state `w` -/
-def histLog (w : KW) : List Kernel.AnyOp → List Outcome
-  | [] => []
-  | op :: rest => outOf (okOf (Kernel.stepAny w op).2) :: histLog (Kernel.stepAny w op).1 rest
+/-- the outcomes of the calls of a history from state `w`: the kernel's, with the value a direct call returns -/
+def histLog (w : KW) (ops : List Kernel.AnyOp) : List Outcome := gLog w (ops.map gOf)
 
 def histWorld (w : KW) (ops : List Kernel.AnyOp) : KW := ops.foldl (fun w o => (Kernel.stepAny w o).1) w
+
+/-- a history of spelled calls with `with journal:` blocks around any parts of it -/
+inductive KBlkX where
+  | ops (l : List KCall)
+  | seq (a b : KBlkX)
+  | withJ (j : Nat) (body : KBlkX)
+
+def KBlkX.toG : KBlkX → GBlk
+  | .ops l => .ops (l.map gOfX)
+  | .seq a b => .seq a.toG b.toG
+  | .withJ j body => .withJ j body.toG
+
+def KBlkX.toBlock (kb : KBlkX) : Block KState := kb.toG.toBlock
+
+def KBlkX.allCalls : KBlkX → List KCall
+  | .ops l => l
+  | .seq a b => a.allCalls ++ b.allCalls
+  | .withJ _ body => body.allCalls
+
+/-- the kernel ops of a spelled history -/
+def KBlkX.allOps (kb : KBlkX) : List Kernel.AnyOp := kb.allCalls.map (·.op)
+
+def histEvsX (w : KW) (cs : List KCall) : List Ev := gEvs w (cs.map gOfX)
+def histLogX (w : KW) (cs : List KCall) : List Outcome := gLog w (cs.map gOfX)
 
 end IrVerif.Journal
